@@ -42,6 +42,7 @@ class InternalCompiler(Compiler):
     ) -> QCircuit:
         qc = QCircuitEnhanced(name=name)
         self.expqmap = ExpQMap()
+        self.const_qubits = {}  # constant value -> index of the shared qubit holding it
         # self.remaining_exps = deepcopy(exprs)
 
         # 1. We first add a qubit for every input bit
@@ -119,15 +120,18 @@ class InternalCompiler(Compiler):
             if isinstance(expr, BooleanTrue):
                 qc.x(iret)
             return iret
-        elif isinstance(expr, BooleanFalse):
-            if "FALSE" not in qc:
-                qc.add_qubit("FALSE")
-            return qc["FALSE"]
-        elif isinstance(expr, BooleanTrue):
-            if "TRUE" not in qc:
-                qc.add_qubit("TRUE")
-                qc.x(qc["TRUE"])
-            return qc["TRUE"]
+        elif isinstance(expr, (BooleanFalse, BooleanTrue)):
+            # the shared constant qubits are known by index: an argument or a variable of the
+            # function may be called FALSE or TRUE as well
+            value = isinstance(expr, BooleanTrue)
+            if value not in self.const_qubits:
+                name = "TRUE" if value else "FALSE"
+                while name in qc:
+                    name += "_"
+                self.const_qubits[value] = qc.add_qubit(name)
+                if value:
+                    qc.x(self.const_qubits[value])
+            return self.const_qubits[value]
 
         # 2. If expr is a symbol
         elif isinstance(expr, Symbol):
